@@ -251,7 +251,7 @@ pub fn run(ctx: &Ctx) -> i32 {
         });
     }
     let n = if ctx.thorough { 150_000 } else { 8_000 };
-    let names = ["astral", "mixed", "graph", "case", "ws", "classes", "clusters"];
+    let names = ["astral", "mixed", "graph", "case", "ws", "classes", "clusters", "tokens"];
     let alphabets: Vec<(String, Vec<String>)> = names.iter().map(|a| (a.to_string(), gen::alphabet(a))).collect();
     par_for(&ctx.run, n, |i, st| {
         let mut rng = Rng::new(seed, 0x110_0000 + i as u64);
